@@ -56,7 +56,13 @@ let put_trip = function
               put_int (int_of_kind t.t_route); put_ostr t.t_res_type
 
 let oracle = ref 0
-let structure ty v = match !oracle with 0 -> SOk (ty, v) | 1 -> SValErr | _ -> SOtherErr
+(* stream cases: one measured converter outcome per frame that reaches the converter, in order *)
+let oracle_queue : int list ref = ref []
+let structure ty v =
+  let flag = (match !oracle_queue with
+              | f :: r -> oracle_queue := r; f
+              | [] -> !oracle) in
+  match flag with 0 -> SOk (ty, v) | 1 -> SValErr | _ -> SOtherErr
 
 let put_message = function
   | MGeneric (c, fs) -> put_int 0; put_int (int_of_gclass c);
@@ -140,6 +146,23 @@ let dispatch = function
     put_int (List.length users);
     put_bool (List.for_all (function CUser (_, p) -> p = 7 | CBuiltin (_, p) -> p = 7) calls);
     put_bool ((not hb) || (match calls with CBuiltin _ :: _ -> s' = [7] | _ -> false))
+  | "stream" ->  (* converter outcomes, frames (0 = undecodable | 1 json) -> per frame: 0 not delivered |
+                     1 typed request / notification: class name, "what the converter was given is the wire JSON" |
+                     2 generic | 3 a future settled *)
+    let flags = read_list next_int in
+    let frames = read_list (fun () -> if next_int () = 0 then FGarbage else FJson (next_json ())) in
+    oracle := 0; oracle_queue := flags;
+    let outs = receive_stream structure !reg st0 frames in
+    oracle_queue := [];
+    put_int (List.length outs);
+    List.iter2 (fun f o ->
+      match o with
+      | ORequest (_, MTyped (_, (ty, v))) | ONotification (MTyped (_, (ty, v))) ->
+        put_int 1; put_nstr ty;
+        put_bool (match f with FJson j -> v = embed j | FGarbage -> false)
+      | ORequest (_, MGeneric _) | ONotification (MGeneric _) -> put_int 2
+      | OResult _ | OError _ -> put_int 3
+      | _ -> put_int 0) frames outs
   | c -> failwith ("unknown command " ^ c)
 (* the reflected tables of this run: work/C13/tables.txt (two lines: setreg ..., sethelpers ...),
    written by harness/c13.py before the driver is started *)
